@@ -39,3 +39,17 @@ More prose here.
 Proof. vm_compute. reflexivity. Qed.
 Example C15_slices_nonvacuous : concat3 (split3 (s2l "hdr\n:param a: x\nfoot") 4 15) = s2l "hdr\n:param a: x\nfoot".
 Proof. vm_compute. reflexivity. Qed.
+
+(* ReST -> ReST through the parser and the emitter (Model/RestDoc.v, tied to the code by C01's correspondence): for every
+   description of the domain of C01_rest_roundtrip the header prose is read back unchanged, none of it ends up in a
+   parameter's description or type, and the re-emitted docstring starts with it. *)
+From CDD Require Import RestDoc RestDocProofs.
+Theorem C15_rest_header_survives : forall doc ps ret,
+  clean doc = true -> forallb param_ok ps = true -> NoDup (map fst ps) -> ps <> [] -> ret_ok ret = true ->
+  let p := parse_rest (emit_rest true doc ps ret) in
+  p_doc p = doc /\ p_params p = ps /\ exists rest, emit_rest true (p_doc p) (p_params p) (p_ret p) = doc ++ rest.
+Proof.
+  intros doc ps ret H1 H2 H3 H4 H5. cbn zeta. rewrite (rest_roundtrip doc ps ret H1 H2 H3 H4 H5). cbn [p_doc p_params p_ret].
+  repeat split. rewrite (emit_is_render doc ps ret H1 H2 H4 H5). unfold render. rewrite <- app_assoc. eexists. reflexivity.
+Qed.
+Print Assumptions C15_rest_header_survives.
